@@ -54,6 +54,21 @@ MUTANTS = {
                                "TopTwo drops (instead of reallocating) ballots whose first choice was eliminated"),
     "sntv-m-minus": ("C13", "votekit/elections/election_types/ranking/plurality.py",
                      "        super().__init__(profile, m, tiebreak)", "        super().__init__(profile, max(1, m - 1) if m > 2 else m, tiebreak)", "SNTV elects m-1 when m>2"),
+    "get-elected-offbyone": ("C09", "votekit/models.py",
+                             "                for state in self.election_states[: (round_number + 1)]\n                for s in state.elected",
+                             "                for state in self.election_states[: max(round_number, 1)]\n                for s in state.elected",
+                             "get_elected(r) stops one round early"),
+    "stv-replay-stores": ("C09", "votekit/elections/election_types/ranking/stv.py",
+                          "        if store_states:\n            if self.score_function:\n                scores = self.score_function(new_profile)\n\n            remaining = score_dict_to_ranking(scores)",
+                          "        if True:\n            if self.score_function:\n                scores = self.score_function(new_profile)\n\n            remaining = score_dict_to_ranking(scores)",
+                          "STV._run_step stores a state even when replaying"),
+    "status-neg-index": ("C09", "votekit/models.py",
+                         "        round_number = round_number % len(self.election_states)\n\n        new_index = [c for s in self.get_ranking(round_number) for c in s]",
+                         "        new_index = [c for s in self.get_ranking(round_number) for c in s]",
+                         "get_status_df does not normalise negative indices"),
+    "stv-replay-final-elected": ("C09", "votekit/elections/election_types/ranking/stv.py",
+                                 "[c for s in self.get_elected(prev_state.round_number) for c in s]", "[c for s in self.get_elected() for c in s]",
+                                 "re-introduce the fixed defect: replay uses the final elected set"),
 }
 
 
